@@ -195,6 +195,8 @@ theorem strict_keeps_destination (o : Nat) (s : Instr) (h : strictImm o) :
                 dsimp only
                 split
                 · exact ⟨rfl, rfl, rfl, rfl, rfl, rfl⟩
+                split
+                · exact ⟨rfl, rfl, rfl, rfl, rfl, rfl⟩
                 · rw [effNasm_strict o _ h]
                   generalize hx0 : ({ x with rdOffset := x.opd0.reg &&& c_VALUE_MASK } : Instr) = x0
                   have hxs : AddrSame x0 x := by rw [← hx0]; exact ⟨rfl, rfl, rfl, rfl, rfl, rfl⟩
